@@ -92,6 +92,11 @@ func runC04(r *Run) {
 			}
 		}
 	}
+	// a commit that is rejected because one slab cannot be encoded must leave the same ledger, cache and write
+	// set whatever the number of workers (nothing may have been written by some worker counts only)
+	for _, wk := range []int{1, 2, 3, 4} {
+		args = append(args, schedArg{Scenario: "commit", Hist: 1, Relaxed: false, Workers: wk, Variant: 1, Bounds: schedBounds{Preempt: 1, MapOrder: 1}, Budget: budget, Strict: true})
+	}
 	r.RunTaskGroup(fmt.Sprintf("commit: interleavings (<=%d preemptions) x map orders (<=%d deviations)", pre, mo), "sched", args)
 	// every pending write set reachable inside a bounded universe: both commits, 2 workers, one deviation of each kind
 	edev, edepth := 1, 3
